@@ -241,3 +241,8 @@ def independent_keys_ok(config, lookup):
             continue
         mapped[operation] = lookup(root.name)
     return mapped
+
+
+@lru_cache(maxsize=None)
+def cached_dict_bad(line, column):
+    return {"line": line, "column": column}
